@@ -69,6 +69,10 @@ func main() {
 			rules.GenStdTable(core.NewCtx("C09", "quick", prog))
 			return
 		}
+		if tier == "acc" {
+			rules.AccDump(core.NewCtx("C09", "quick", prog))
+			return
+		}
 		rules.DumpNasModel(core.NewCtx("C08", "quick", prog))
 		return
 	}
